@@ -35,6 +35,7 @@ type pqRoles struct {
 	chunkT           *types.Named
 	push, pop        *Func
 	itemLit          *ast.CompositeLit // the item literal built by the priority Enqueue
+	enqHelpers       map[*Func]bool    // unexported helpers only the priority Enqueue calls (analysed as part of it)
 }
 
 func (c *Ctx) pqRoles(rule string) *pqRoles {
@@ -85,41 +86,89 @@ func (c *Ctx) pqRoles(rule string) *pqRoles {
 				prioParam = info.ObjectOf(last.Names[len(last.Names)-1])
 			}
 		}
-		ast.Inspect(r.pqEnq.Body, func(n ast.Node) bool {
-			switch x := n.(type) {
-			case *ast.CallExpr:
-				if resolveCallee(info, x).Key == "container/heap.Push" && len(x.Args) == 2 {
-					if hn := namedOf(info.TypeOf(x.Args[0])); hn != nil {
-						r.heapT = hn.Origin()
-					}
-				}
-			case *ast.CompositeLit:
-				n := namedOf(info.TypeOf(x))
-				if n == nil {
-					return true
-				}
-				for _, el := range x.Elts {
-					kvx, ok := el.(*ast.KeyValueExpr)
-					if !ok {
-						continue
-					}
-					key, _ := kvx.Key.(*ast.Ident)
-					if key == nil {
-						continue
-					}
-					if id, ok := ast.Unparen(kvx.Value).(*ast.Ident); ok && info.ObjectOf(id) == prioParam && prioParam != nil {
-						r.fPrio = key.Name
-						r.itemT = n.Origin()
-					}
-					if fk := selField(info, kvx.Value); fk != "" && strings.HasPrefix(fk, qualTypeName(r.pq)+".") {
-						r.fIndex = key.Name
-						r.fCounter = fk
-					}
-					r.itemLit = x
+		// Enqueue and the helpers of its package it calls; for a helper, which of its parameters receives the priority
+		type scope struct {
+			f    *Func
+			prio types.Object
+		}
+		scopes := []scope{{r.pqEnq, prioParam}}
+		for _, cs := range c.P.calls(r.pqEnq) {
+			g := c.P.byObj[cs.Callee.Key]
+			if g == nil || g.Pkg != r.pqEnq.Pkg || g.Body == nil || g == r.pqEnq {
+				continue
+			}
+			var gp types.Object
+			var names []*ast.Ident
+			if g.Type.Params != nil {
+				for _, fld := range g.Type.Params.List {
+					names = append(names, fld.Names...)
 				}
 			}
-			return true
-		})
+			for i, a := range cs.Call.Args {
+				if id, ok := ast.Unparen(a).(*ast.Ident); ok && prioParam != nil && info.ObjectOf(id) == prioParam && i < len(names) {
+					gp = g.Info().ObjectOf(names[i])
+				}
+			}
+			scopes = append(scopes, scope{g, gp})
+			only := g.Obj != nil && !g.Obj.Exported()
+			for _, other := range c.P.allCalls(false) {
+				if other.Callee.Key == cs.Callee.Key && other.In != r.pqEnq {
+					only = false
+				}
+			}
+			if only {
+				if r.enqHelpers == nil {
+					r.enqHelpers = map[*Func]bool{}
+				}
+				r.enqHelpers[g] = true
+			}
+		}
+		for _, sc := range scopes {
+			finfo := sc.f.Info()
+			ast.Inspect(sc.f.Body, func(n ast.Node) bool {
+				switch x := n.(type) {
+				case *ast.CallExpr:
+					if resolveCallee(finfo, x).Key == "container/heap.Push" && len(x.Args) == 2 {
+						if hn := namedOf(finfo.TypeOf(x.Args[0])); hn != nil {
+							r.heapT = hn.Origin()
+						}
+					}
+				case *ast.IncDecStmt:
+					if fk := selField(finfo, x.X); fk != "" && strings.HasPrefix(fk, qualTypeName(r.pq)+".") {
+						r.fCounter = fk
+					}
+				case *ast.AssignStmt:
+					for _, l := range x.Lhs {
+						if fk := selField(finfo, l); fk != "" && strings.HasPrefix(fk, qualTypeName(r.pq)+".") {
+							if b, ok := finfo.TypeOf(l).Underlying().(*types.Basic); ok && b.Info()&types.IsInteger != 0 {
+								r.fCounter = fk
+							}
+						}
+					}
+				case *ast.CompositeLit:
+					n := namedOf(finfo.TypeOf(x))
+					if n == nil {
+						return true
+					}
+					for _, el := range x.Elts {
+						kvx, ok := el.(*ast.KeyValueExpr)
+						if !ok {
+							continue
+						}
+						key, _ := kvx.Key.(*ast.Ident)
+						if key == nil {
+							continue
+						}
+						if id, ok := ast.Unparen(kvx.Value).(*ast.Ident); ok && sc.prio != nil && finfo.ObjectOf(id) == sc.prio {
+							r.fPrio = key.Name
+							r.itemT = n.Origin()
+							r.itemLit = x
+						}
+					}
+				}
+				return true
+			})
+		}
 	}
 	if r.heapT != nil {
 		for _, f := range c.P.pkgFuncs(qp.PkgPath) {
@@ -419,66 +468,111 @@ func (c *Ctx) ruleTieIndex(rule string, r *pqRoles) {
 			"the item's tie-break index is taken from `"+src+"`, not from a counter field of the queue that only ever grows: after a Dequeue a later item can get an index below that of an earlier, still queued item of the same priority, and overtakes it")
 		return
 	}
-	mk := func(root *Func) *seqRule {
-		sr := &seqRule{c: c, rule: rule}
-		sr.classify = func(fr *Frame, call *ast.CallExpr, ce *Callee, args []Value) *callEvent {
-			switch ce.Key {
-			case "container/heap.Push":
-				return &callEvent{Name: "heappush", Atomic: true}
-			case "container/heap.Pop":
-				return &callEvent{Name: "heappop", Atomic: true}
-			}
-			return nil
+	// the counter is followed as an offset from its value at entry: reading it gives "n+k", x+1 of "n+k" is "n+(k+1)",
+	// ++ / += 1 / a store of such a value move it. The item built for the heap must carry "n+0" as its tie index and an
+	// accepting path must leave the counter at "n+1" (Enqueue runs under the queue's lock, so the order of the store and
+	// heap.Push is not observable).
+	bump := func(t string) string {
+		switch t {
+		case "n+0":
+			return "n+1"
+		case "n+1":
+			return "n+2"
 		}
-		sr.visit = func(fr *Frame, n ast.Node) string {
-			info := fr.Fn.Info()
-			switch x := n.(type) {
-			case *ast.IncDecStmt:
-				if selField(info, x.X) == r.fCounter {
-					if x.Tok == token.INC {
-						return "idx++"
-					}
-					return "idx--"
-				}
-			case *ast.AssignStmt:
-				for i, l := range x.Lhs {
-					if selField(info, l) == r.fCounter {
-						if x.Tok == token.ASSIGN && len(x.Rhs) == len(x.Lhs) {
-							if tv := info.Types[x.Rhs[i]]; tv.Value != nil && tv.Value.ExactString() == "0" {
-								return "idx=0"
-							}
-						}
-						return "idx=?"
-					}
-					if selField(info, l) == r.fItems && len(x.Rhs) == len(x.Lhs) && isEmptySlice(info, x.Rhs[i]) {
-						return "items=empty"
-					}
-				}
-			case *ast.SelectorExpr:
-				if fieldKey(info, x) == r.fCounter {
-					return "idx?"
-				}
-			}
-			return ""
-		}
-		return sr
+		return "n+*"
 	}
-	for _, sg := range mk(r.pqEnq).segments(r.pqEnq) {
-		desc := "[" + strings.Join(sg.Syms, " ") + "]"
+	isN := func(v Value) bool { return v.Kind == VTok && strings.HasPrefix(v.S, "n+") }
+	sr := &seqRule{c: c, rule: rule}
+	sr.init = kv("").set("T", "n+0")
+	sr.classify = func(fr *Frame, call *ast.CallExpr, ce *Callee, args []Value) *callEvent {
+		switch ce.Key {
+		case "container/heap.Push":
+			return &callEvent{Name: "heappush", Atomic: true}
+		case "container/heap.Pop":
+			return &callEvent{Name: "heappop", Atomic: true}
+		}
+		return nil
+	}
+	sr.exprValSt = func(ip *Interp, fr *Frame, st *State, e ast.Expr) (Value, bool) {
+		fi := fr.Fn.Info()
+		switch x := ast.Unparen(e).(type) {
+		case *ast.SelectorExpr:
+			if selField(fi, x) == r.fCounter {
+				return Value{Kind: VTok, S: st.Dom.(kv).get("T")}, true
+			}
+		case *ast.BinaryExpr:
+			if x.Op == token.ADD {
+				a, b := x.X, x.Y
+				if tv := fi.Types[a]; tv.Value != nil {
+					a, b = b, a
+				}
+				if tv := fi.Types[b]; tv.Value != nil && tv.Value.ExactString() == "1" {
+					if pv := ip.pureValue(fr, st, a); isN(pv) {
+						return Value{Kind: VTok, S: bump(pv.S)}, true
+					}
+				}
+			}
+		}
+		return Value{}, false
+	}
+	sr.fieldStore = func(ip *Interp, fr *Frame, st *State, sel *ast.SelectorExpr, v Value) *State {
+		fi := fr.Fn.Info()
+		if selField(fi, sel) == r.fItems && v.Kind != VUnknown {
+			return st
+		}
+		if selField(fi, sel) != r.fCounter {
+			return st
+		}
+		cur := st.Dom.(kv).get("T")
+		t := "?"
+		switch {
+		case isN(v):
+			t = v.S
+		case v.Kind == VConst && (v.S == "++" || v.S == "+=1"):
+			if strings.HasPrefix(cur, "n+") {
+				t = bump(cur)
+			}
+		case v.Kind == VConst && v.S == "0":
+			t = "zero"
+		}
+		return st.WithDom(st.Dom.(kv).set("T", t))
+	}
+	sr.visit = func(fr *Frame, n ast.Node) string {
+		if x, ok := n.(*ast.AssignStmt); ok {
+			for i, l := range x.Lhs {
+				if selField(fr.Fn.Info(), l) == r.fItems && len(x.Rhs) == len(x.Lhs) && isEmptySlice(fr.Fn.Info(), x.Rhs[i]) {
+					return "items=empty"
+				}
+			}
+		}
+		return ""
+	}
+	sr.litElem = func(ip *Interp, fr *Frame, st *State, lit *ast.CompositeLit, key string, v Value) *State {
+		if n := namedOf(fr.Fn.Info().TypeOf(lit)); n == nil || n.Origin() != r.itemT || key != r.fIndex {
+			return st
+		}
+		if isN(v) {
+			return addSym(st, "index="+v.S)
+		}
+		return addSym(st, "index=?")
+	}
+	for _, sg := range sr.segments(r.pqEnq) {
+		if sg.Kind != "path" {
+			continue
+		}
+		desc := "[" + strings.Join(sg.Syms, " ") + "] counter left at " + sg.T
 		accepted := len(sg.Ret) == 1 && sg.Ret[0].isTrue()
 		if sg.has("heappush") || accepted {
-			// idx? (read for the item) ... idx++ ... heappush ; the IncDec itself also reads the field
-			good := sg.count("heappush") == 1 && sg.count("idx++") == 1 && sg.index("idx?") >= 0 && sg.index("idx?") < sg.index("idx++") && sg.index("idx++") < sg.index("heappush") &&
-				!sg.has("idx--") && !sg.has("idx=?") && !sg.has("idx=0") && accepted
-			c.Rep.check(good, rule, r.pqEnq.Short(), "tie index not read-then-incremented once before heap.Push", sg.End, "index read, counter incremented once, then heap.Push, returns true",
-				"on an accepting path Enqueue must read the insertion counter into the item, increment it exactly once, then heap.Push and return true: "+desc)
+			good := sg.count("heappush") == 1 && sg.count("index=n+0") == 1 && !sg.has("index=?") && sg.T == "n+1" && accepted
+			c.Rep.check(good, rule, r.pqEnq.Short(), "tie index not read-then-incremented once before heap.Push", sg.End, "item carries the counter's value, counter left one higher, one heap.Push, returns true",
+				"on an accepting path Enqueue must give the item the insertion counter's current value as its tie index, leave the counter exactly one higher, heap.Push once and return true: "+desc)
 		} else {
-			c.Rep.check(!sg.has("idx++") && !sg.has("idx=?") && !sg.has("idx--"), rule, r.pqEnq.Short(), "counter changed on a rejecting path", sg.End, "rejecting path leaves the counter alone", "a rejecting path of Enqueue modifies the insertion counter: "+desc)
+			c.Rep.check(sg.T == "n+0", rule, r.pqEnq.Short(), "counter changed on a rejecting path", sg.End, "rejecting path leaves the counter alone", "a rejecting path of Enqueue modifies the insertion counter: "+desc)
 		}
 	}
 	// other writers of the counter
 	for _, f := range c.P.Funcs {
-		if f.Body == nil || f == r.pqEnq {
+		if f.Body == nil || f == r.pqEnq || r.enqHelpers[f] {
 			continue
 		}
 		writes := false
@@ -502,9 +596,12 @@ func (c *Ctx) ruleTieIndex(rule string, r *pqRoles) {
 		if !writes {
 			continue
 		}
-		for _, sg := range mk(f).segments(f) {
-			desc := "[" + strings.Join(sg.Syms, " ") + "]"
-			bad := sg.has("idx++") || sg.has("idx--") || sg.has("idx=?") || (sg.has("idx=0") && !sg.has("items=empty"))
+		for _, sg := range sr.segments(f) {
+			if sg.Kind != "path" {
+				continue
+			}
+			desc := "[" + strings.Join(sg.Syms, " ") + "] counter left at " + sg.T
+			bad := sg.T != "n+0" && !(sg.T == "zero" && sg.has("items=empty"))
 			c.Rep.check(!bad, rule, f.Short(), "insertion counter modified outside Enqueue", sg.End, "counter only reset together with emptying the heap",
 				"the insertion counter is modified outside Enqueue other than by a reset that also empties the heap: items already queued could be overtaken by later ones of equal priority: "+desc)
 		}
